@@ -9,6 +9,7 @@ import (
 	"encoding/hex"
 	"fmt"
 	"math/big"
+	"reflect"
 	"sort"
 	"strings"
 
@@ -490,12 +491,56 @@ func showKVs(kvs []kv) string {
 
 func bi(b []byte) *big.Int { return new(big.Int).SetBytes(b) }
 
-func showVotes(m map[common.Address]int) string {
+// showVotes prints a Voting's votes as sender:candidate-index.  It goes through reflection so that
+// the rig keeps compiling when the representation of a vote changes (index, pointer to candidate, …):
+// a vote that is not an index is resolved to the position of the candidate it denotes.
+func showVotes(voting interface{}) string {
+	v := reflect.ValueOf(voting)
+	if v.Kind() == reflect.Ptr {
+		v = v.Elem()
+	}
+	votes, cands := v.FieldByName("Votes"), v.FieldByName("Candidates")
 	kvs := []kv{}
-	for a, i := range m {
-		kvs = append(kvs, kv{bi(a.Bytes()), fmt.Sprint(i)})
+	for _, k := range votes.MapKeys() {
+		val := votes.MapIndex(k)
+		idx := -1
+		switch val.Kind() {
+		case reflect.Int, reflect.Int64, reflect.Int32:
+			idx = int(val.Int())
+		default:
+			for i := 0; i < cands.Len(); i++ {
+				c := cands.Index(i)
+				if val.Kind() == reflect.Ptr && c.Kind() == reflect.Ptr && val.Pointer() == c.Pointer() {
+					idx = i
+					break
+				}
+			}
+			if idx < 0 { // not the same object: fall back to the first candidate with an equal value
+				for i := 0; i < cands.Len(); i++ {
+					if reflect.DeepEqual(reflect.Indirect(val).Interface(), reflect.Indirect(cands.Index(i)).Interface()) {
+						idx = -(i + 2) // negative: equal by value only, not the candidate itself
+						break
+					}
+				}
+			}
+		}
+		a := k.Interface().(common.Address)
+		kvs = append(kvs, kv{bi(a.Bytes()), fmt.Sprint(idx)})
 	}
 	return showKVs(kvs)
+}
+
+func candidateList(voting interface{}) []interface{} {
+	v := reflect.ValueOf(voting)
+	if v.Kind() == reflect.Ptr {
+		v = v.Elem()
+	}
+	cands := v.FieldByName("Candidates")
+	out := []interface{}{}
+	for i := 0; i < cands.Len(); i++ {
+		out = append(out, reflect.Indirect(cands.Index(i)).Interface())
+	}
+	return out
 }
 
 type pr struct{ a, b *big.Int }
@@ -540,15 +585,15 @@ func showBigs(as []*big.Int) string {
 
 func showDKG(d *app.DKGInstance) string {
 	cands := []string{}
-	for _, c := range d.SuccessVoting.Candidates {
-		cands = append(cands, b2s(c))
+	for _, c := range candidateList(&d.SuccessVoting) {
+		cands = append(cands, b2s(c.(bool)))
 	}
 	evals := []pr{}
 	for p := range d.PolyEvalsSeen {
 		evals = append(evals, pr{bi(p.Sender.Bytes()), bi(p.Receiver.Bytes())})
 	}
 	return fmt.Sprintf("{cfg=%s eon=%d votes=%s cands=[%s] evals=%s commits=%s acc=%s apo=%s}",
-		showConfig(&d.Config), d.Eon, showVotes(d.SuccessVoting.Votes), strings.Join(cands, ";"),
+		showConfig(&d.Config), d.Eon, showVotes(&d.SuccessVoting), strings.Join(cands, ";"),
 		showPairs(evals), showAddrSet(d.PolyCommitmentsSeen), showAddrSet(d.AccusationsSeen), showAddrSet(d.ApologiesSeen))
 }
 
@@ -577,8 +622,9 @@ func ShowState(a *app.ShutterApp) string {
 		dkgs = append(dkgs, kv{new(big.Int).SetUint64(eon), showDKG(d)})
 	}
 	cvc := []string{}
-	for i := range a.ConfigVoting.Candidates {
-		cvc = append(cvc, showConfig(&a.ConfigVoting.Candidates[i]))
+	for _, c := range candidateList(&a.ConfigVoting) {
+		bc := c.(app.BatchConfig)
+		cvc = append(cvc, showConfig(&bc))
 	}
 	ids := []kv{}
 	for ad, pk := range a.Identities {
@@ -607,7 +653,7 @@ func ShowState(a *app.ShutterApp) string {
 		fork = fmt.Sprintf("fork=%s:%d", b2s(a.ForkHeights.CheckInUpdateNew.Enabled), a.ForkHeights.CheckInUpdateNew.Height)
 	}
 	return fmt.Sprintf("configs=[%s] dkgs=[%s] cv=<votes=%s cands=[%s]> h=%d ids=%s seen=%s vals=%s eon=%d dev=%s members=%s counts=%s cnonces=%s nonces=%s chain=%s %s",
-		strings.Join(cfgs, ";"), showKVs(dkgs), showVotes(a.ConfigVoting.Votes), strings.Join(cvc, ";"), a.LastBlockHeight,
+		strings.Join(cfgs, ";"), showKVs(dkgs), showVotes(&a.ConfigVoting), strings.Join(cvc, ";"), a.LastBlockHeight,
 		showKVs(ids), showKVs(seen), showKVs(vals), a.EONCounter, b2s(a.DevMode), showBigs(members), showKVs(counts),
 		showPairs(noncePairs(a.CheckTxState.NonceTracker)), showPairs(noncePairs(a.NonceTracker)), a.ChainID, fork)
 }
